@@ -325,6 +325,7 @@ type vC13Gen struct {
 	classes []uint16
 	scopes  []netip.Prefix
 	recent  []vC13QKey
+	textual []vC13Name // names that are textual, not structural, suffixes of pool names
 }
 
 func vC13RandLabel(r *rand.Rand, special bool) []byte {
@@ -334,23 +335,35 @@ func vC13RandLabel(r *rand.Rand, special bool) []byte {
 		b[i] = byte('a' + r.Intn(6))
 	}
 	if special {
-		switch r.Intn(4) {
-		case 0:
-			b = append(b, '.') // a dot inside a label: "\." in presentation form
-		case 1:
-			b = append(b, '\\')
-		case 2:
-			b = append(b, 200) // \DDD escape
-		case 3:
-			b = append(b, ' ')
+		// a byte that needs an escape in presentation form, inside the label:
+		// "\." "\\" "\200" "\ " — text-level shortcuts through the name go wrong here
+		sp := []byte{'.', '.', '\\', 200, ' '}[r.Intn(5)]
+		tail := make([]byte, 1+r.Intn(2))
+		for i := range tail {
+			tail[i] = byte('a' + r.Intn(6))
 		}
+		b = append(append(b, sp), tail...)
 	}
 	return b
 }
 
+// for a label with an inner dot ("x.y"), the name [y]+parent: its presentation
+// string is a textual suffix of "x\.y.parent." without being an ancestor of it
+func vC13TextualSiblings(n vC13Name) []vC13Name {
+	var out []vC13Name
+	for i, l := range n {
+		for j, c := range l {
+			if c == '.' && j+1 < len(l) {
+				out = append(out, append(vC13Name{append([]byte(nil), l[j+1:]...)}, n[i+1:]...))
+			}
+		}
+	}
+	return out
+}
+
 func newVC13Gen(r *rand.Rand) *vC13Gen {
 	g := &vC13Gen{r: r}
-	special := r.Intn(8) == 0
+	special := r.Intn(4) == 0
 	tld := vC13RandLabel(r, false)
 	z1 := vC13Name{vC13RandLabel(r, special), tld}
 	z2 := vC13Name{vC13RandLabel(r, false), tld}
@@ -364,6 +377,12 @@ func newVC13Gen(r *rand.Rand) *vC13Gen {
 	// a sibling whose presentation string has the zone's string as a suffix but
 	// is not below it: "xab.com." vs "ab.com."
 	g.names = append(g.names, vC13Name{append([]byte{'x'}, z1[0]...), tld})
+	for _, nm := range append([]vC13Name(nil), g.names...) {
+		for _, sib := range vC13TextualSiblings(nm) {
+			g.names = append(g.names, sib)
+			g.textual = append(g.textual, sib)
+		}
+	}
 	alienTLD := []byte("zz")
 	g.aliens = []vC13Name{{alienTLD}, {vC13RandLabel(r, false), alienTLD}, {z1[0], alienTLD}}
 	g.types = []uint16{dns.TypeA, dns.TypeAAAA, dns.TypeSOA}
@@ -435,6 +454,9 @@ func (g *vC13Gen) zone() (vC13Name, uint16) {
 	z := g.caseMix(g.names[g.r.Intn(4)]) // root, tld, the two zones
 	if g.r.Intn(4) == 0 {
 		z = g.caseMix(g.names[g.r.Intn(len(g.names))])
+	}
+	if len(g.textual) > 0 && g.r.Intn(3) == 0 {
+		z = g.caseMix(g.textual[g.r.Intn(len(g.textual))])
 	}
 	c := g.classes[0]
 	if g.r.Intn(6) == 0 {
